@@ -175,11 +175,86 @@ def ofCyWith (q : Cy.Query) : Option S3.Query :=
     if s.wf then pure s else none
   | _, _ => none
 
-/-- THE MODEL TRANSLATOR over all proved stages: `tr6F`, and S3a (MATCH … WITH … RETURN with plain items) -/
+namespace S3b
+/-
+Stage S3b: A MATCH AFTER THE WITH — a directed hop that starts at the node the WITH carries
+
+  MATCH (n[:K…]) [WHERE p] WITH n MATCH (n)-[r[:T|…]]->(b[:K…]) RETURN items        items ::= x | id(x) | x.k [AS alias], x ∈ {n, r, b}, each read
+
+  with s0 as (with s1 as (<node frame>) select s1.n0 as n0 from s1),
+       s2 as (select (e0.*)::edgecomposite as e0, s0.n0 as n0, (n1.*)::nodecomposite as n1
+              from s0 join edge e0 on (s0.n0).id = e0.start_id join node n1 on [kinds and] n1.id = e0.end_id [where e0.kind_id = any (…)])
+  select <items over s2> from s2
+
+`s2` is the step frame of stage S2c for step number 0 (`Ch.stepFrame 0`): it extends the one-column hand-over frame `s0` by relationship `e0`
+and node `n1`; there is no earlier relationship in this MATCH, hence no `!=` guard.
+-/
+structure Query where
+  var : String
+  kinds : List String
+  wh : Option S1.Pred
+  walias : Option String          -- `WITH n` (none) or `WITH n AS n` (some n)
+  hop : Ch.Hop
+  items : List Ch.Item
+deriving Repr, DecidableEq, Inhabited
+
+def Query.base (q : Query) : S1.Query := ⟨q.var, q.kinds, q.wh, [], none⟩
+
+/-- the second part as a chain query of ONE hop from the carried node (its names and items are those of stage S2c) -/
+def Query.ch (q : Query) : Ch.Query := ⟨q.var, [], [q.hop], [], q.items⟩
+
+def Query.wf (q : Query) : Bool :=
+  decide ([q.var, q.hop.r, q.hop.n].Nodup) && (q.walias.getD q.var == q.var) &&
+  q.items.all (fun it => q.ch.refs.contains it.ref) && q.ch.refs.all (fun x => q.items.any (fun it => it.ref == x))
+
+def Query.toCy (q : Query) : Cy.Query :=
+  { parts := [{ clauses := [.match false [.mk none false false (.mk (some q.var) q.kinds []) []] (q.wh.map (S1.Pred.toCy q.var))]
+                proj := S3.plainProj [⟨.var q.var, q.walias⟩]
+                wh := none }]
+    clauses := [.match false [.mk none false false (.mk (some q.var) [] [])
+      [(.mk (some q.hop.r) q.hop.rkinds .out none [], .mk (some q.hop.n) q.hop.nkinds [])]] none]
+    ret := S3.plainProj (q.items.map (Ch.Item.toCy q.ch)) }
+
+def Query.tr (km : KindMap) (q : Query) : Option Sql.Stmt :=
+  if !q.wf then none else
+  match S1.whereOf km q.base, Ch.hopKinds km q.hop with
+  | some w, some (kr, kn) =>
+    some (.query (.mk false
+      [.mk "s0" none none (.mk false
+        [.mk "s1" none none (Sql.Query.simple (.select false [S1.nodeComposite] [.mk (.table ["node"] (some "n0")) []] w [] none))]
+        (.select false [.aliased (S2.col "s1" "n0") (some "n0")] [.mk (.table ["s1"] none) []] none [] none) [] none none),
+       .mk "s2" none none (Ch.stepFrame 0 kr kn none none)]
+      (.select false (q.items.map (Ch.Item.tr q.ch "s2")) [.mk (.table ["s2"] none) []] none [] none) [] none none))
+  | _, _ => none
+
+end S3b
+
+/-- the S3b reading of a parsed query, if it has one -/
+def ofCyWithHop (q : Cy.Query) : Option S3b.Query :=
+  match q.parts, q.clauses with
+  | [⟨[.match false [.mk none false false (.mk (some v) kinds []) []] wh], proj, none⟩],
+    [.match false [.mk none false false (.mk (some v2) [] []) [step]] none] =>
+    if !isPlainProj proj || !isPlainProj q.ret || v2 != v then none else do
+    let w ← (match wh with | none => some none | some e => (predOf v e).map some)
+    let wa ← (match proj.items with
+      | [⟨.var v', a⟩] => if v' == v then some a else none
+      | _ => none)
+    let hop ← chHopOf step
+    let q0 : Ch.Query := ⟨v, [], [hop], [], []⟩
+    let items ← q.ret.items.mapM (chItemOf q0)
+    let s : S3b.Query := ⟨v, kinds, w, wa, hop, items⟩
+    if s.wf then pure s else none
+  | _, _ => none
+
+/-- THE MODEL TRANSLATOR over all proved stages: `tr6F`, S3a (MATCH … WITH … RETURN with plain items) and S3b (a hop from the carried node
+after the WITH) -/
 def tr7F (flipOf : S2.Query → Bool) (flipCh : Ch.Query → Bool) (flipN : S2n.Query → Bool) (fast prune push : Bool) (km : KindMap) (q : Cy.Query) :
     Option (Sql.Stmt × List (String × Val)) :=
   match ofCyWith q with
   | some s => (s.tr km).map (fun st => (st, []))
-  | none => tr6F flipOf flipCh flipN fast prune push km q
+  | none =>
+    match ofCyWithHop q with
+    | some s => (s.tr km).map (fun st => (st, []))
+    | none => tr6F flipOf flipCh flipN fast prune push km q
 
 end Dawgs.C01
